@@ -397,6 +397,31 @@ where
     let mut c = *a;
     c.conjugate_in_place();
     tc.chk(rep, "conjugate_in_place", &c, &El::X(vec![co[0].clone(), t.neg(&co[1])]), &[a]);
+    // the specialisable non-residue helpers of the configuration, called directly on base-field operands
+    // (x = c0 of a, y = the random base-field element above): each is defined by a formula in beta
+    {
+        let (x, y) = (a.c0, eb);
+        let (ex, ey) = (co[0].clone(), t.from_flat(&e, d - 1));
+        let by = t.mul(beta, &ey);
+        let chk_sub = |rep: &mut Report, op: &str, got: &P::BaseField, exp: &El| {
+            rep.eval(digest(&(tc.name.as_str(), op, &x, &y)), true);
+            if sub_el(t, got, d - 1) != *exp {
+                rep.violation(tc.sig(op, "value"), json!({"config": tc.name, "x": hexf(&flat(&x)), "y": hexf(&flat(&y)), "got": hexf(&flat(got))}));
+            }
+        };
+        if let Some(r) = rep.total(&tc.sig("Config::mul_base_field_by_nonresidue_in_place", "total"), || json!({"config": tc.name}), || { let mut v = y; P::mul_base_field_by_nonresidue_in_place(&mut v); v }) {
+            chk_sub(rep, "Config::mul_base_field_by_nonresidue_in_place", &r, &by);
+        }
+        if let Some(r) = rep.total(&tc.sig("Config::mul_base_field_by_nonresidue_and_add", "total"), || json!({"config": tc.name}), || { let mut v = y; P::mul_base_field_by_nonresidue_and_add(&mut v, &x); v }) {
+            chk_sub(rep, "Config::mul_base_field_by_nonresidue_and_add", &r, &t.add(&ex, &by));
+        }
+        if let Some(r) = rep.total(&tc.sig("Config::mul_base_field_by_nonresidue_plus_one_and_add", "total"), || json!({"config": tc.name}), || { let mut v = y; P::mul_base_field_by_nonresidue_plus_one_and_add(&mut v, &x); v }) {
+            chk_sub(rep, "Config::mul_base_field_by_nonresidue_plus_one_and_add", &r, &t.add(&t.add(&ex, &by), &ey));
+        }
+        if let Some(r) = rep.total(&tc.sig("Config::sub_and_mul_base_field_by_nonresidue", "total"), || json!({"config": tc.name}), || { let mut v = y; P::sub_and_mul_base_field_by_nonresidue(&mut v, &x); v }) {
+            chk_sub(rep, "Config::sub_and_mul_base_field_by_nonresidue", &r, &t.sub(&ex, &by));
+        }
+    }
 }
 
 pub fn cubic_extras<P: CubicExtConfig>(tc: &TC<CubicExtField<P>>, rep: &mut Report, rng: &mut Rng, a: &CubicExtField<P>)
@@ -432,6 +457,20 @@ where
     if let Some(r) = rep.total(&tc.sig("mul_assign_by_base_field", "total"), || json!({"config": tc.name}), || { let mut x = *a; x.mul_assign_by_base_field(&eb); x }) {
         rep.eval(digest(&(tc.name.as_str(), "mabb", a, &eb)), true);
         tc.chk(rep, "mul_assign_by_base_field", &r, &t.mul(&ea, &emb), &[a]);
+    }
+    // the specialisable non-residue helpers of the configuration
+    {
+        let by = t.mul(beta, &t.from_flat(&e, d - 1));
+        for (op, r) in [
+            ("Config::mul_base_field_by_nonresidue_in_place", rep.total(&tc.sig("Config::mul_base_field_by_nonresidue_in_place", "total"), || json!({"config": tc.name}), || { let mut v = eb; P::mul_base_field_by_nonresidue_in_place(&mut v); v })),
+            ("Config::mul_base_field_by_nonresidue", rep.total(&tc.sig("Config::mul_base_field_by_nonresidue", "total"), || json!({"config": tc.name}), || P::mul_base_field_by_nonresidue(eb))),
+        ] {
+            let Some(r) = r else { continue };
+            rep.eval(digest(&(tc.name.as_str(), op, &eb)), true);
+            if sub_el(t, &r, d - 1) != by {
+                rep.violation(tc.sig(op, "value"), json!({"config": tc.name, "y": hexf(&flat(&eb)), "got": hexf(&flat(&r))}));
+            }
+        }
     }
 }
 
